@@ -154,8 +154,8 @@ impl<'a> ViewK2 for PostK<'a> {
 struct AbsK<'a> { props: &'a mut Propagators, s: VarId }
 impl<'a> ViewK for AbsK<'a> { type Out = (); fn call<V: View>(self, v: V) { self.props.abs(v, self.s); } }
 
-fn var_ix(tok: &str) -> usize { tok.trim_start_matches('x').parse().expect("var") }
-fn var_list(tok: &str, vars: &[VarId]) -> Vec<VarId> {
+pub fn var_ix(tok: &str) -> usize { tok.trim_start_matches('x').parse().expect("var") }
+pub fn var_list(tok: &str, vars: &[VarId]) -> Vec<VarId> {
     if tok == "-" { return vec![]; }
     tok.split(',').map(|t| vars[var_ix(t)]).collect()
 }
